@@ -194,7 +194,15 @@ class Gauss:
         self.sigma = sigma
 
 
+_ANALYSIS = None
+
+
 def _analysis_cls():
+    """the analysis class, made once and reachable by name from this module (a sampler that checkpoints its
+    likelihood pickles the analysis)"""
+    global _ANALYSIS, CountingAnalysis
+    if _ANALYSIS is not None:
+        return _ANALYSIS
     import autofit as af
 
     class CountingAnalysis(af.Analysis):
@@ -206,6 +214,8 @@ def _analysis_cls():
             x, y = instance.centre, instance.sigma
             return -((x - 0.3) ** 4 + (y - 3.1) ** 2 + 0.5 * (x - 0.3) ** 2 * (y - 3.1) ** 2) - 0.25
 
+    CountingAnalysis.__qualname__ = "CountingAnalysis"
+    _ANALYSIS = CountingAnalysis
     return CountingAnalysis
 
 
@@ -238,6 +248,9 @@ def make_search(kind: str):
         return af.LBFGS(name="fit", iterations_per_update=2, maxiter=4)
     if kind == "dynesty":
         return af.DynestyStatic(name="fit", nlive=20, maxcall=260, iterations_per_update=100, number_of_cores=1)
+    if kind == "dynesty_x1":
+        # without the (one-process) dynesty pool: the other branch of the sampler's construction and of its resume
+        return af.DynestyStatic(name="fit", nlive=20, maxcall=260, iterations_per_update=100, number_of_cores=1, force_x1_cpu=True)
     raise ValueError(kind)
 
 
